@@ -48,9 +48,24 @@ func checkC08(c *Ctx) {
 	c.RequireCount("C08.err calls returning an error", n, 6)
 
 	if j := anchor(c, pkgDeps+".jumps"); j != nil {
-		nc := checkCompaction(c, "C08.jumps", j)
-		c.RequireCount("C08.jumps compaction loop", nc, 1)
 		cps := FindCompactions(j)
+		if len(cps) > 0 {
+			checkCompaction(c, "C08.jumps", j)
+		} else {
+			checkJumpsAppendForm(c, j)
+		}
+		// whatever the form: the loop over the possibilities is left only when they are exhausted
+		for _, l := range possibilityLoops(j) {
+			early := ""
+			for b := range l {
+				for _, s := range b.Succs {
+					if !l[s] && !isLoopHeaderOf(b, l) {
+						early = c.Prog.Pos(firstPos(b))
+					}
+				}
+			}
+			c.Oblige("C08.jumps", ShortName(j)+"/all-possibilities-visited", c.Prog.FuncPos(j), early == "", "the loop over the possible targets can be left early (at "+early+"): the remaining targets of the instruction are lost")
+		}
 		ipKey := ""
 		if ep := c.Prog.SSAPkg[ExprPkg]; ep != nil && ep.Const("IPKey") != nil {
 			ipKey = strings.Trim(ep.Const("IPKey").Value.Value.ExactString(), "\"")
@@ -696,4 +711,159 @@ func checkC26(c *Ctx) {
 		}
 	}
 	c.Extra["header_sized_allocations"] = nAlloc
+}
+
+// possibilityLoops returns the block sets of the loops of fn that read
+// elements of a slice returned by exprtransform.Possibilities.
+func possibilityLoops(fn *ssa.Function) []map[*ssa.BasicBlock]bool {
+	var out []map[*ssa.BasicBlock]bool
+	seen := map[*ssa.BasicBlock]bool{}
+	for _, b := range fn.Blocks {
+		for _, in := range b.Instrs {
+			ia, ok := in.(*ssa.IndexAddr)
+			if !ok || !matches(ia.X, CallTo(pkgXform+".Possibilities", Any())) {
+				continue
+			}
+			// innermost loop header dominating b from which b loops back
+			var header *ssa.BasicBlock
+			for _, h := range fn.Blocks {
+				if h.Dominates(b) && LoopBlocks(h)[b] && len(LoopBlocks(h)) > 1 {
+					if header == nil || header.Dominates(h) {
+						header = h
+					}
+				}
+			}
+			if header != nil && !seen[header] {
+				seen[header] = true
+				out = append(out, LoopBlocks(header))
+			}
+		}
+	}
+	return out
+}
+
+// isLoopHeaderOf: b is the block of the loop whose exit is the normal one:
+// the block that dominates every other block of the set.
+func isLoopHeaderOf(b *ssa.BasicBlock, loop map[*ssa.BasicBlock]bool) bool {
+	for x := range loop {
+		if !b.Dominates(x) {
+			return false
+		}
+	}
+	return true
+}
+
+// checkJumpsAppendForm decides deps.jumps when it is written as a loop that
+// appends the kept targets: every iteration either appends the folded
+// possibility or skips it under (folded to a constant) && (== ins.End()).
+func checkJumpsAppendForm(c *Ctx, j *ssa.Function) {
+	loops := possibilityLoops(j)
+	if len(loops) != 1 {
+		c.Undecide("C08.jumps: deps.jumps has neither the in-place compaction form nor a single loop over Possibilities(...)")
+		return
+	}
+	loop := loops[0]
+	var header *ssa.BasicBlock
+	for b := range loop {
+		if isLoopHeaderOf(b, loop) {
+			header = b
+		}
+	}
+	// keep = append whose appended element derives from ConstFold(<element of the possibilities>)
+	var folded ssa.Value
+	isKeep := func(in ssa.Instruction) bool {
+		call, ok := in.(*ssa.Call)
+		if !ok {
+			return false
+		}
+		bi, ok := call.Call.Value.(*ssa.Builtin)
+		if !ok || bi.Name() != "append" {
+			return false
+		}
+		return DependsOn(call.Call.Args[1], func(v ssa.Value) bool {
+			if matches(v, CallTo(pkgXform+".ConstFold", Any())) {
+				folded = v
+				return true
+			}
+			return false
+		})
+	}
+	body := header.Succs[0]
+	nKeep := 0
+	for b := range loop {
+		for _, in := range b.Instrs {
+			if isKeep(in) {
+				nKeep++
+			}
+		}
+	}
+	c.Oblige("C08.jumps", ShortName(j)+"/fold-before-test", c.Prog.FuncPos(j), nKeep >= 1, "no constant-folded possibility is ever kept as a jump target")
+	if nKeep == 0 {
+		return
+	}
+	// blocks that go back to the header without having kept the element
+	for b := range loop {
+		goesBack := false
+		for _, s := range b.Succs {
+			if s == header {
+				goesBack = true
+			}
+		}
+		if !goesBack || b == header {
+			continue
+		}
+		// is there a path body -> b avoiding keep (b itself without keep)?
+		avoid := false
+		seen := map[*ssa.BasicBlock]bool{}
+		var rec func(x *ssa.BasicBlock)
+		rec = func(x *ssa.BasicBlock) {
+			if seen[x] || !loop[x] || x == header {
+				return
+			}
+			seen[x] = true
+			for _, in := range x.Instrs {
+				if isKeep(in) {
+					return
+				}
+			}
+			if x == b {
+				avoid = true
+				return
+			}
+			for _, s := range x.Succs {
+				rec(s)
+			}
+		}
+		rec(body)
+		if !avoid {
+			continue
+		}
+		constOK, eqEnd := false, false
+		for _, g := range GuardsOf(b) {
+			if ex, ok := g.Cond.(*ssa.Extract); ok && ex.Index == 1 && g.Outcome {
+				if ta, ok := ex.Tuple.(*ssa.TypeAssert); ok && TypeNameIs(ta.AssertedType, "pkg/expr.Const") && matches(ta.X, CallTo(pkgXform+".ConstFold", Any())) {
+					constOK = true
+				}
+			}
+			if cmp, ok := g.Cond.(*ssa.BinOp); ok && (cmp.Op == token.NEQ || cmp.Op == token.EQL) && (cmp.Op == token.EQL) == g.Outcome {
+				isAddr := func(v ssa.Value) bool { return matches(v, ExtractN(0, CallTo("pkg/expr.ConstUint", Any()))) }
+				isEnd := func(v ssa.Value) bool {
+					return matches(v, Method("End", func(x ssa.Value, _ *Bind) bool { return IsParam(x, j.Params[0]) || isLocalCopyOf(x, j.Params[0]) || true }))
+				}
+				if (isAddr(cmp.X) && isEnd(cmp.Y)) || (isAddr(cmp.Y) && isEnd(cmp.X)) {
+					eqEnd = true
+				}
+			}
+		}
+		key := ShortName(j) + "/drop-guard"
+		switch {
+		case !constOK:
+			c.Fail("C08.jumps", key, c.Prog.Pos(firstPos(b)), "a possible target is dropped although it did not fold to a constant")
+		case !eqEnd:
+			c.Fail("C08.jumps", key, c.Prog.Pos(firstPos(b)), "a constant target is dropped without being equal to ins.End(): a real jump target is lost")
+		default:
+			c.Pass("C08.jumps", key, c.Prog.Pos(firstPos(b)), "")
+		}
+	}
+	_ = folded
 }
